@@ -8,7 +8,9 @@ def run(tier, seed):
     arenas = [("default", {}), ("tiny", {"MIMALLOC_ARENA_RESERVE": "65536"}), ("noarena", {"MIMALLOC_DISALLOW_ARENA_ALLOC": "1"}),
               ("lazy", {"MIMALLOC_EAGER_COMMIT": "0", "MIMALLOC_ARENA_EAGER_COMMIT": "0"})]
     k = 0
-    for delay, dec, mult, pat in itertools.product([-1, 0, 5, 10], [1, 0], [1, 10], ["pages", "segments", "all", "huge"]):
+    for delay, dec, mult, pat in itertools.product([-1, 0, 5, 10], [1, 0], [1, 10], ["pages", "segments", "all", "huge", "holes"]):
+        if pat == "holes" and (mult == 10 or delay < 0):
+            continue
         if delay <= 0 and mult == 10:
             continue
         for an, aenv in arenas:
@@ -52,7 +54,7 @@ def run(tier, seed):
     V, cov = osfam.run_os("C18", tier, seed, runs, builds=["rel", "dbg"], own_guards=GUARDS, crash_decisive=True,
                           group=6, finish=False,
                           extra_cov={"purge_delay": [-1, 0, 5, 10], "purge_decommits": [0, 1], "arena_purge_mult": [1, 10],
-                                     "patterns": ["pages", "segments", "all", "huge", "starve"], "arena_configs": [a for a, _ in arenas], "configs_run": len(runs)})
+                                     "patterns": ["pages", "segments", "all", "huge", "holes", "starve"], "arena_configs": [a for a, _ in arenas], "configs_run": len(runs)})
     # the schedule under concurrency: a purge scheduled while another thread visits the arenas must not be forgotten (/repo 7a0ea3c, 95404ba);
     # arena dumps at the quiescent points of scheduled executions (Arena.GlobalCoversArenas, Arena.PurgeScheduled)
     jobs = [{"prog": "arena", "strategy": "random", "runs": (150, 1500), "args": ["--rate", "3"]},
